@@ -104,7 +104,7 @@ func qualify(n *lib.LogNode) {
 	if n == nil {
 		return
 	}
-	if n.Tag == 'c' && (n.Str == "S" || n.Str == "Inner") {
+	if n.Tag == 'c' && (n.Str == "S" || n.Str == "Inner" || n.Str == "P") {
 		n.Str = "A.0000000000000001.C05." + n.Str
 	}
 	for _, e := range n.Elems {
